@@ -1063,8 +1063,8 @@ def run(ctx):
                             t0=ctx.t0)
 
 def replay(ctx, path):
+    d = json.load(open(path))        # before the process moves to its scratch directory
     I = impl()
-    d = json.load(open(path))
     c = d.get('case') or d.get('first_disagreement')
     print(json.dumps(c, indent=1)[:4000])
     if not c:
